@@ -1,7 +1,7 @@
 SPECIFICATION Spec
 CONSTANTS
-  MaxSegs = 5
-  SizeSet = {1, 2, 3, 5, 8}
+  MaxSegs = 4
+  SizeSet = {1, 2, 4, 7}
   Policy <- PolOne
 CONSTRAINT Bound
 INVARIANTS CandidatesDisjoint CandidatesEligible CandidatesJustified CandidatesNonEmpty LevelsPartition LevelsTight
